@@ -9,6 +9,7 @@ import (
 	"net"
 	"os"
 	"strings"
+	"time"
 
 	"pgregory.net/rapid"
 )
@@ -26,6 +27,7 @@ type stdVariant struct {
 	MustRR     [3]string
 	NoReceived [3]string
 	Timeout    int
+	DynPool    bool // listen entry 0 also gets the TCP backends a host name resolves to (.40 and .41, port 5080), fed through the resolver's own entry point
 	Two        bool // a second entry under proxies: (svc-b.test, listener .4:5066/5067, backend .37:5080) whose host table differs from the first one's and from the global one
 }
 
@@ -43,6 +45,8 @@ type stdSvc struct {
 	tcpUA  map[string]*labTCPConn
 	seq    int
 	primed bool
+	pool   string   // DynPool: the backend host name ...
+	poolIP []string // ... and the addresses it resolves to at the start
 }
 
 func (s *stdSvc) ip(d int) string { return s.in.ip(d) }
@@ -134,6 +138,17 @@ func newStdSvc(v stdVariant) (*stdSvc, error) {
 		}
 		cfg.Listens[0].Backends = bs
 	}
+	if v.DynPool {
+		// the global dynamic resolver without its polling goroutine (DNS is dead in
+		// the harness: polling would only report failures and empty the pool)
+		if dynamicHostResolver != nil {
+			dynamicHostResolver.Stop()
+		}
+		dynamicHostResolver = &DynamicHostResolver{hostIPs: map[string]*AddressWithCallback{}}
+		s.pool = fmt.Sprintf("std-pool-%d.verif.invalid", in.c)
+		s.poolIP = []string{ip(40), ip(41)}
+		cfg.Listens[0].Backends = append(cfg.Listens[0].Backends, "tcp://"+s.pool+":5080")
+	}
 	if v.Default {
 		cfg.Routes = append(cfg.Routes, labRouteCfg{Dests: []string{"default"}, Protocol: "udp", NextHop: ip(22)})
 	}
@@ -169,12 +184,18 @@ func newStdSvc(v stdVariant) (*stdSvc, error) {
 		for _, b := range l.Backends {
 			proto, hp, _ := strings.Cut(b, "://")
 			host, port := splitHostPort(hp)
+			if !isIPv4Literal(host) {
+				continue
+			}
 			if proto == "udp" {
 				add(in.hub.udpEP("backend-udp", host, port))
 			} else {
 				add(in.hub.tcpEP("backend-tcp", host, port))
 			}
 		}
+	}
+	for _, a := range s.poolIP {
+		add(in.hub.tcpEP("backend-tcp-resolved", a, 5080))
 	}
 	var err error
 	if v.Bin {
@@ -191,6 +212,9 @@ func newStdSvc(v stdVariant) (*stdSvc, error) {
 		return nil, err
 	}
 	s.model = newModel(cfg)
+	if v.DynPool {
+		s.resolved(s.poolIP...)
+	}
 	for i := 0; i < 4; i++ {
 		s.uas = append(s.uas, add(in.hub.udpEP(fmt.Sprintf("ua%d", i), ip(10+i), 5060)))
 		s.uas2 = append(s.uas2, add(in.hub.udpEP(fmt.Sprintf("ua%d'", i), ip(10+i), 6010)))
@@ -359,4 +383,12 @@ func c03OwnRoute(rt *rapid.T, s *stdSvc, L *mTransport) ANameAddr {
 		u.User = gWord(rt, "ownuserv")
 	}
 	return ANameAddr{URI: u}
+}
+
+// resolved: the backend host name of a DynPool service now resolves to addrs
+// (fed through the entry point the resolver's polling loop calls); returns once
+// the rotation has had time to follow.
+func (s *stdSvc) resolved(addrs ...string) {
+	dynamicHostResolver.addressResolved(s.pool, append([]string{}, addrs...), nil)
+	time.Sleep(120 * time.Millisecond)
 }
